@@ -40,7 +40,7 @@ type c20Prog struct {
 var idPool = []string{"a", "b", "ab", "userA", "a/b", "x/y/z", "é", "日本", "with space", "UPPER", "0",
 	"02e912d824a865bd7f87fff26508ad3b6cb6f37c9b5d8e851e334a69f72eec36d5",
 	"a-very-long-identifier-a-very-long-identifier-a-very-long-identifier-a-very-long-identifier-a-very-long-identifier",
-	"c", "d", "e"}
+	"c", "d", "e", "/lead/slash", "trail/"}
 
 func genC20(t *rapid.T) c20Prog {
 	p := c20Prog{Instances: rapid.IntRange(1, 3).Draw(t, "instances"), Plain: rapid.IntRange(0, 2).Draw(t, "plainStore") == 0}
@@ -390,6 +390,6 @@ func (f *flakyDS) Put(ctx context.Context, k ds.Key, v []byte) error {
 func TestC20(t *testing.T) {
 	c := ev.Get("C20")
 	c.Rule = "stateful model-based generation: 3-30 operations on 1-3 keystore instances sharing one datastore: create(id) (only for ids absent from the model, as every caller does), create with a failing datastore write (must fail and leave the id absent on every instance), get, has, reopen(instance), createBurst(130-300 fresh ids, beyond the 128-entry cache), createIdentity(id) on two instances; ids from a pool with slashes, unicode, spaces, long and hex-like names. Model = map id -> public key. has must be true exactly for created ids (false with an error counts as absent), get must return the created key or an error; identities created twice must be identical (incl. signatures), the id signature must verify under the published key over the id, the public-key signature under the key the id denotes over hex(publicKey || idSignature), and an entry signed with the identity - also through the provider object another identity was created with - must carry and verify under the published key; a final sweep queries every key on every instance and on a brand-new one. Non-trivial = a present id queried on another instance, after a reopen or after eviction (burst); distinct = distinct program."
-	c.Assumptions = []string{"ids are datastore-key-normal (no leading/trailing/double slashes or dot segments): the datastore cleans key paths, so such ids alias by construction", "create is only issued for ids that do not exist (CreateKey overwrites by design)"}
+	c.Assumptions = []string{"no two ids of the pool alias under the datastore's key cleaning (the pool has one id with a leading and one with a trailing slash, but not their cleaned twins; double slashes and dot segments are left out): the datastore cleans key paths, so ids that clean to the same path are one key by construction", "create is only issued for ids that do not exist (CreateKey overwrites by design)"}
 	ev.Check(t, "C20", genC20, runC20)
 }
